@@ -173,6 +173,8 @@ def remove_integer : List String := [
 def read_number : List String := [
   "number = 0",
   "llen = 0",
+  "if not string",
+  ".raise UnexpectedDER",
   "if str_idx_as_int(string, 0) == 128",
   ".raise UnexpectedDER",
   "while True",
